@@ -39,6 +39,8 @@ MUTATORS = {
         ("alias bound to other method", r"quimb/tensor/tensor_core\.py$", r"^(\s+)retag_ = functools\.partialmethod\(retag, inplace=True\)\s*$", r"\1retag_ = functools.partialmethod(reindex, inplace=True)"),
     ],
     "C04": [
+        ("anti-diagonal pass flips the untested index", r"quimb/tensor/tensor_core\.py$", r"^(\s+)ix_flip = ix_i\s*$", r"\1ix_flip = ix_j", r"^antidiag_gauge$"),
+        ("column reduce cuts output indices", r"quimb/tensor/tensor_core\.py$", r"^(\s+)if ind in output_inds:\s*$", r"\1if False:", r"^column_reduce$"),
         ("isometrize flags the requested side whatever the shape", r"quimb/tensor/tensor_core\.py$", r"^(\s+)if x\.shape\[0\] < x\.shape\[1\]:\s*$", r"\1if False:", r"^isometrize$"),
         ("merged index collapsed on one tensor only", r"quimb/tensor/tensor_core\.py$", r"^(\s+)tx\.collapse_repeated_\(\)\s*$", r"\1pass"),
         ("gauge applied conditioned, recorded raw", r"quimb/tensor/tensor_core\.py$", r"^(\s+)t\.multiply_index_diagonal_\(ix, g\)\s*$", r"\1t.multiply_index_diagonal_(ix, g ** 1.0)", r"^gauge_simple_insert$"),
@@ -120,6 +122,7 @@ MUTATORS = {
         ("boundary gate on sorted pair", r"quimb/tensor/tn1d/tebd\.py$", r"^(\s+)U, where=sites, absorb=\"left\", \*\*self\.split_opts\s*$", r'\1U, where=(0, self.L - 1), absorb="left", **self.split_opts'),
     ],
     "C12": [
+        ("environment stored as a live view", r"quimb/tensor/(tn2d|tn3d)/core\.py$", r"^(\s+)(.*)tn\.select(_any)?\((.*), virtual=False\)\s*$", r"\1\2tn.select\3(\4)", r"^(_compute_plane_envs|compute_environments)$"),
         ("whole working network equalized while environments are stored", r"quimb/tensor/tn2d/core\.py$", r"^(\s+)tn_boundary\.equalize_norms_\(equalize_norms\)\s*$", r"\1tn.equalize_norms_(equalize_norms)"),
         ("skip predicate looks at one tensor only", r"quimb/tensor/tensor_core\.py$", r"^(\s+)and \(len\(tn\._get_neighbor_tids\(\[tid2\]\)\) <= 2\)\s*$", r"\1and (len(tn._get_neighbor_tids([tid1])) <= 2)"),
         ("canonize options not handed on", r"quimb/tensor/tensor_core\.py$", r"^(\s+)canonize_opts=canonize_opts,\s*$", None, r"^_contract_around_tids$"),
